@@ -168,7 +168,7 @@ def run(ctx, chk):
             chk.ob("C06.channel", "%s path %d: refused allocation raises creation_failed" % (bn, k), cf, "%s:%d" % (bf.file, bf.line),
                    fn=bn, key="%s:cf:%d" % (bn, k), detail="" if cf else "allocation failure is swallowed (no MEMERROR)",
                    path=pa.block_lines() if not cf else None)
-    chk.floor("C06.channel", "allocation-failure paths in builders", nb, 35)
+    chk.floor("C06.channel", "allocation-failure paths in builders", nb, 20)
     chk.count("functions", len(prog.lib_funcs()))
     chk.count("paths", sum(len(cache.get(f.name)) for f in prog.lib_funcs()))
     chk.exhaustive = True
